@@ -79,12 +79,11 @@ func VerifC03Hist() {
 	// reference machine
 	refS, refR, refP, refN := Closed, uint64(0), uint64(0), 0
 	var comps []verifCompletion
-	for k := 0; k < K; k++ {
-		nt := rt.U64n("t", 50)
-		rt.Assume(nt >= t)
+	// one operation against breaker and reference machine
+	step := func(nt uint64, isTry, failed bool, rtt uint64) {
 		t = nt
 		rt.SetClockMs(t)
-		if rt.Bool("isTryPass") {
+		if isTry {
 			got := cb.TryPass(ctx)
 			want := false
 			switch refS {
@@ -101,8 +100,6 @@ func VerifC03Hist() {
 			rt.Reach("c03.trypass")
 			rt.Assert(got == want, "TryPass: closed admits, open rejects until the retry timeout has elapsed then admits one probe, half-open admits only configured probes")
 		} else {
-			failed := rt.Bool("err")
-			rtt := rt.U64n("rt", 21)
 			var e error
 			if failed {
 				e = boom
@@ -145,6 +142,33 @@ func VerifC03Hist() {
 		}
 		rt.Assert(cb.CurrentState() == refS, "state agrees with the three-state reference machine")
 		rt.Assert(lis.n == refN && !lis.illegal, "listeners observe exactly the reference transitions, each once, as a legal path from Closed")
+	}
+	if rt.Param("PRE") != 0 {
+		// forced prefix: one whole round (trip, retry timeout, probes until closed); the symbolic history starts in the second round
+		for i := 0; i < 4 && refS != Open; i++ {
+			step(t, false, true, maxRt+1)
+		}
+		if refS != Open {
+			return
+		}
+		step(refR+rt.U64n("late", 3), true, false, 0)
+		for i := 0; i < 3 && refS != Closed; i++ {
+			step(t, false, false, 0)
+		}
+		if refS != Closed {
+			return
+		}
+		rt.Reach("c03.second-round")
+	}
+	for k := 0; k < K; k++ {
+		nt := rt.U64n("t", 50)
+		rt.Assume(nt >= t)
+		isTry := rt.Bool("isTryPass")
+		failed, rtt := false, uint64(0)
+		if !isTry {
+			failed, rtt = rt.Bool("err"), rt.U64n("rt", 21)
+		}
+		step(nt, isTry, failed, rtt)
 	}
 	rt.Reach("c03.done")
 }
